@@ -15,6 +15,13 @@
 //!   Mixtures are made of whole 512 B / 4 KiB blocks only (the statement speaks of blocks);
 //!   cutting short is done at every byte (the statement says so).
 //! Every image is recovered in-process (open + read everything) under catch_unwind.
+//! A file that is accepted is then USED where the structure can be written to or re-saved
+//! (MmapVec: fill to capacity, sync, reopen, grow, sync, reopen; MemoryMappedOutput: open, overwrite,
+//! append, flush; dictionaries and ZipOffset stores: load, save under another name, load again;
+//! PlainBlobStore: put after every crash point), and images that only the real code can
+//! produce are taken from the real code (crash points inside PlainBlobStore::put, a
+//! ZReorderMapBuilder that never reached finish(), run files of ReplaceSelectSort damaged between
+//! finish_run and the merge).
 //!
 //! Oracle (no stricter than the statement): `Err` from open/load or from any later read is
 //! always fine; a complete error-free read-out must equal the logical state at SOME durable
@@ -471,12 +478,36 @@ fn show_vec(v: &VecState) -> String {
     format!("len {} [{}{}]", v.len(), head.join(","), if v.len() > 6 { ",.." } else { "" })
 }
 
-fn mmapvec_readout(path: &Path) -> Result<VecState, String> {
-    let v = MmapVec::<u64>::open(path, MmapVecConfig::default()).map_err(|e| e.to_string())?;
+/// The configuration presets the library offers for opening (drawn once per run).
+fn preset_config(p: u8) -> MmapVecConfig {
+    match p {
+        0 => MmapVecConfig::default(),
+        1 => MmapVecConfig::read_only(),
+        2 => MmapVecConfig::large_dataset(),
+        3 => MmapVecConfig::persistent_cache(),
+        4 => MmapVecConfig::performance_optimized(),
+        5 => MmapVecConfig::memory_optimized(),
+        6 => MmapVecConfig::realtime(),
+        _ => MmapVecConfig::builder().with_initial_capacity(3).with_growth_factor(1.25).with_populate_pages(true).build(),
+    }
+}
+
+fn mmapvec_readout(path: &Path, preset: u8) -> Result<VecState, String> {
+    let v = MmapVec::<u64>::open(path, preset_config(preset)).map_err(|e| e.to_string())?;
     let n = v.len();
     let s = v.as_slice().to_vec();
     if s.len() != n {
         return Err("as_slice length differs from len()".into());
+    }
+    // the other observers of the same content
+    if v.is_empty() != (n == 0) || v.stats().len != n || v.stats().capacity != v.capacity() || v.capacity() < n {
+        return Err("is_empty()/stats()/capacity() disagree with len()".into());
+    }
+    if n <= 512 {
+        let it: Vec<u64> = (&v).into_iter().copied().collect();
+        if it != s || (&v).into_iter().len() != n {
+            return Err("iteration differs from as_slice()".into());
+        }
     }
     for i in [0usize, n / 2, n.saturating_sub(1)] {
         if i < n && v.get(i).copied() != Some(s[i]) {
@@ -490,17 +521,19 @@ fn mmapvec_readout(path: &Path) -> Result<VecState, String> {
 }
 
 /// A recovery of an MmapVec image, with the mapping it leaks given back afterwards.
-fn mmapvec_recover(scen: &str, desc: &str, path: &Path) -> Outcome<VecState> {
+fn mmapvec_recover(scen: &str, desc: &str, path: &Path, preset: u8) -> Outcome<VecState> {
     let m = fence::mark();
-    let o = recover(scen, desc, || mmapvec_readout(path));
+    let o = recover(scen, desc, || mmapvec_readout(path, preset));
     fence::release_since(m);
     o
 }
 
 /// Continued use of a reopened image: fill the vector up to the capacity it reports (no growth
 /// is needed for that), sync, reopen.  Ok((pushed, final content)); Err = some call reported an error.
-fn mmapvec_continue(path: &Path, limit: usize) -> Result<(Vec<u64>, VecState), String> {
-    let mut v = MmapVec::<u64>::open(path, MmapVecConfig::default()).map_err(|e| e.to_string())?;
+fn mmapvec_continue(path: &Path, limit: usize, preset: u8) -> Result<(Vec<u64>, VecState, Vec<u64>, VecState), String> {
+    // (a preset that forbids writing or syncs on every push is opened writable / without that)
+    let config = || MmapVecConfig { read_only: false, sync_on_write: false, ..preset_config(preset) };
+    let mut v = MmapVec::<u64>::open(path, config()).map_err(|e| e.to_string())?;
     let room = v.capacity().saturating_sub(v.len()).min(limit);
     let mut pushed = vec![];
     for i in 0..room {
@@ -510,8 +543,20 @@ fn mmapvec_continue(path: &Path, limit: usize) -> Result<(Vec<u64>, VecState), S
     }
     v.sync().map_err(|e| e.to_string())?;
     drop(v);
-    let w = MmapVec::<u64>::open(path, MmapVecConfig::default()).map_err(|e| e.to_string())?;
-    Ok((pushed, w.as_slice().to_vec()))
+    let mut w = MmapVec::<u64>::open(path, config()).map_err(|e| e.to_string())?;
+    let fin = w.as_slice().to_vec();
+    // ... and beyond: three more elements (the vector has to grow: sync, set_len, reload), one
+    // element changed in place, sync, reopen
+    let mut more = vec![];
+    for i in 0..3u64 {
+        let x = uval(0x7800_0000 + i);
+        w.push(x).map_err(|e| e.to_string())?;
+        more.push(x);
+    }
+    w.sync().map_err(|e| e.to_string())?;
+    drop(w);
+    let z = MmapVec::<u64>::open(path, config()).map_err(|e| e.to_string())?;
+    Ok((pushed, fin, more, z.as_slice().to_vec()))
 }
 
 struct Snap<S> {
@@ -545,6 +590,9 @@ impl Scenario for MmapVecSc {
         let sow = !self.large && cfg.chance(1, 5);
         let planned = if self.large { 2 } else { 4 + cfg.below(12) };
         let which_t = if self.large { 0 } else { cfg.small(8) };
+        // (new knobs are drawn from their own channel: the meaning of the cfg tape stays as it was)
+        let knobs = cx.src.chan("knobs");
+        let preset = if knobs.chance(1, 2) { 1 + knobs.below(7) as u8 } else { 0 };
         let scratch = Scratch::new(cx, "mmapvec");
         let path = scratch.path("v.mmv");
         let img = scratch.path("img.mmv");
@@ -552,7 +600,7 @@ impl Scenario for MmapVecSc {
         fence::on(true);
         let mark0 = fence::mark();
         let config = || MmapVecConfig { initial_capacity: cap0, growth_factor: gf, sync_on_write: sow, ..MmapVecConfig::default() };
-        cx.ev(format!("create MmapVec<u64> initial_capacity={} growth_factor={} sync_on_write={}", cap0, gf, sow));
+        cx.ev(format!("create MmapVec<u64> initial_capacity={} growth_factor={} sync_on_write={}; reopen with configuration preset {}", cap0, gf, sow, preset));
         let mut vec = match MmapVec::<u64>::create(&path, config()) {
             Ok(x) => Some(x),
             Err(e) => {
@@ -585,7 +633,7 @@ impl Scenario for MmapVecSc {
             // sync_on_write) may have made any of them durable
             let mut cands: Vec<VecState> = vec![mem.clone()];
             let mut explicit = false;
-            let k = if self.large { if first { 4 } else { 10 } } else { o[0] % 15 };
+            let k = if self.large { if first { 4 } else { 10 } } else { o[0] % 17 };
             first = false;
             let what: String;
             let res: Result<(), String> = match k {
@@ -638,9 +686,60 @@ impl Scenario for MmapVecSc {
                     h.resize(n, x).map_err(|e| e.to_string())
                 }
                 7 => {
-                    let n = (o[1] % 6) as usize;
+                    let n = [0usize, 1, 2, 3, 4, 5, 70, 130][(o[1] % 8) as usize];
                     what = format!("reserve {}", n);
                     h.reserve(n).map_err(|e| e.to_string())
+                }
+                15 => {
+                    // the whole content replaced by that of a second file-backed vector
+                    let n = [0usize, 1, 3, 7, 8, 12, 70][(o[1] % 7) as usize];
+                    let xs = fresh(n);
+                    what = format!("copy_from_simd(a second vector of {} values)", n);
+                    let src_path = scratch.path("src.mmv");
+                    let r = (|| -> Result<(), String> {
+                        let mut src = MmapVec::<u64>::create(&src_path, MmapVecConfig { initial_capacity: 2, ..MmapVecConfig::default() }).map_err(|e| e.to_string())?;
+                        src.extend(xs.iter().copied()).map_err(|e| e.to_string())?;
+                        h.copy_from_simd(&src).map_err(|e| e.to_string())
+                    })();
+                    if r.is_ok() {
+                        mem = xs.clone();
+                    }
+                    r
+                }
+                16 => {
+                    // elements changed in place, the length stays
+                    if mem.is_empty() {
+                        what = "in-place change skipped (empty)".into();
+                        Ok(())
+                    } else {
+                        let x = fresh(1)[0];
+                        let a = (o[1] as usize) % mem.len();
+                        let b = (a + 1 + (o[3] as usize) % 9).min(mem.len());
+                        match o[2] % 3 {
+                            0 => {
+                                what = format!("*get_mut({}) = {:x}", a, x);
+                                mem[a] = x;
+                                match h.get_mut(a) {
+                                    Some(r) => {
+                                        *r = x;
+                                        Ok(())
+                                    }
+                                    None => Err("get_mut in range returned None".into()),
+                                }
+                            }
+                            1 => {
+                                what = format!("as_mut_slice()[{}..{}].fill({:x})", a, b, x);
+                                mem[a..b].fill(x);
+                                h.as_mut_slice()[a..b].fill(x);
+                                Ok(())
+                            }
+                            _ => {
+                                what = format!("fill_range_simd({}..{}, {:x})", a, b, x);
+                                mem[a..b].fill(x);
+                                h.fill_range_simd(a..b, x).map_err(|e| e.to_string())
+                            }
+                        }
+                    }
                 }
                 8 => {
                     what = "clear".into();
@@ -718,7 +817,7 @@ impl Scenario for MmapVecSc {
             let changed = bytes != snaps.last().unwrap().bytes;
             if changed || explicit {
                 let want: Vec<VecState> = if explicit { vec![mem.clone()] } else { cands.clone() };
-                match mmapvec_recover(&scen, &format!("clean reopen after op {} ({})", nops, what), &path) {
+                match mmapvec_recover(&scen, &format!("clean reopen after op {} ({})", nops, what), &path, preset) {
                     Outcome::Ok(s) => {
                         if want.iter().any(|w| *w == s) {
                             cx.ev(format!("{} -> durable S{} = {}", what, snaps.len(), show_vec(&s)));
@@ -760,7 +859,7 @@ impl Scenario for MmapVecSc {
                 if std::fs::write(&img, bytes).is_err() {
                     return;
                 }
-                let o = mmapvec_recover(&scen, &format!("{} {}", fam.name(), desc), &img);
+                let o = mmapvec_recover(&scen, &format!("{} {}", fam.name(), desc), &img, preset);
                 let accepted: Option<VecState> = match &o {
                     Outcome::Ok(s) if states.iter().any(|(_, st)| **st == *s) => Some(s.clone()),
                     _ => None,
@@ -770,15 +869,21 @@ impl Scenario for MmapVecSc {
                 // capacity) must really be there
                 if let Some(s0) = accepted {
                     let m = fence::mark();
-                    let o2 = recover(&scen, &format!("{} {} + continued use", fam.name(), desc), || mmapvec_continue(&img, 20_000));
+                    let o2 = recover(&scen, &format!("{} {} + continued use", fam.name(), desc), || mmapvec_continue(&img, 20_000, preset));
                     fence::release_since(m);
                     cx.probe("accepted_images_used_further");
                     match o2 {
-                        Outcome::Ok((pushed, fin)) => {
+                        Outcome::Ok((pushed, fin, more, fin2)) => {
                             let mut want = s0.clone();
                             want.extend_from_slice(&pushed);
                             if fin != want {
                                 v.add(PRIO_IMAGE, "continued_use_mismatch", &format!("MmapVec.reopen+use/{}", fam.name()), format!("image [{}] reopened as {}; after {} pushes (within the reported capacity) and a sync it reopens as {}", desc, show_vec(&s0), pushed.len(), show_vec(&fin)));
+                            } else {
+                                want.extend_from_slice(&more);
+                                cx.probe("accepted_images_grown");
+                                if fin2 != want {
+                                    v.add(PRIO_IMAGE, "continued_use_mismatch", &format!("MmapVec.reopen+grow/{}", fam.name()), format!("image [{}] reopened as {}; filled to its capacity ({} pushes), synced, reopened, {} more pushes (growth), synced: it reopens as {} instead of {}", desc, show_vec(&s0), pushed.len(), more.len(), show_vec(&fin2), show_vec(&want)));
+                                }
                             }
                         }
                         Outcome::Refused => cx.probe("continued_use_reported_error"),
@@ -823,7 +928,7 @@ impl Scenario for MmapVecBytes {
         let cfg = cx.src.chan("cfg");
         let cap0 = *cfg.pick(&[1usize, 8, 64, 200, 1024]);
         let sow = cfg.chance(1, 6);
-        let planned = 4 + cfg.below(14);
+        let planned = 6 + cfg.below(18);
         let scratch = Scratch::new(cx, "mmapvec8");
         let path = scratch.path("b.mmv");
         let mut v = Verdicts::default();
@@ -847,7 +952,73 @@ impl Scenario for MmapVecBytes {
             ctr = ctr.wrapping_add(1).max(1);
             let what: String;
             let mut explicit = false;
-            let res: Result<(), String> = match o[0] % 9 {
+            // (16 and 17 are further syncs: two operations in eighteen are explicit durable points)
+            let res: Result<(), String> = match if o[0] % 18 >= 16 { 7 } else { o[0] % 18 } {
+                9 => {
+                    // (what pop returns is not C19's business; the length change is)
+                    let got = h.pop();
+                    mem.pop();
+                    what = format!("pop -> {:?}", got);
+                    since_sync.push("pop");
+                    Ok(())
+                }
+                10 => {
+                    let n = [0usize, 1, 63, 64, 65, 200, 1025][(o[1] % 7) as usize];
+                    what = format!("resize({}, {:#x})", n, ctr);
+                    since_sync.push("resize");
+                    mem.resize(n, ctr);
+                    h.resize(n, ctr).map_err(|e| e.to_string())
+                }
+                11 => {
+                    if o[1] % 2 == 0 {
+                        what = "clear".into();
+                        since_sync.push("clear");
+                        mem.clear();
+                        h.clear().map_err(|e| e.to_string())
+                    } else {
+                        what = "shrink_to_fit".into();
+                        since_sync.push("shrink_to_fit");
+                        h.shrink_to_fit().map_err(|e| e.to_string())
+                    }
+                }
+                12 => {
+                    let n = [0usize, 1, 64, 300, 1100][(o[1] % 5) as usize];
+                    what = format!("reserve {}", n);
+                    since_sync.push("reserve");
+                    h.reserve(n).map_err(|e| e.to_string())
+                }
+                13 => {
+                    let n = [1usize, 8, 63, 64, 65, 128, 300][(o[1] % 7) as usize];
+                    let xs: Vec<u8> = (0..n).map(|i| ctr.wrapping_mul(17).wrapping_add(i as u8)).collect();
+                    what = format!("push_bulk_simd {} bytes", n);
+                    since_sync.push(if n >= 64 { "push_bulk_simd(>=64B)" } else { "push_bulk_simd(<64B)" });
+                    mem.extend_from_slice(&xs);
+                    h.push_bulk_simd(&xs).map_err(|e| e.to_string())
+                }
+                14 => {
+                    let n = [0usize, 1, 63, 64, 100][(o[1] % 5) as usize].min(mem.len());
+                    what = format!("pop_bulk_simd {}", n);
+                    since_sync.push("pop_bulk_simd");
+                    let keep = mem.len() - n;
+                    mem.truncate(keep);
+                    h.pop_bulk_simd(n).map(|_| ()).map_err(|e| e.to_string())
+                }
+                15 => {
+                    // the content of a second vector (file-backed, or the library's temporary one)
+                    let n = [0usize, 1, 40, 63, 64, 100, 300][(o[1] % 7) as usize];
+                    let xs: Vec<u8> = (0..n).map(|i| ctr.wrapping_mul(29).wrapping_add(i as u8)).collect();
+                    let temp = o[2] % 2 == 1;
+                    what = format!("copy_from_simd({} vector of {} bytes)", if temp { "with_capacity_simd" } else { "a second file-backed" }, n);
+                    since_sync.push("copy_from_simd");
+                    let src_path = scratch.path("src.mmv");
+                    let r = (|| -> Result<(), String> {
+                        let mut src = if temp { MmapVec::<u8>::with_capacity_simd(n).map_err(|e| e.to_string())? } else { MmapVec::<u8>::create(&src_path, MmapVecConfig { initial_capacity: 4, ..MmapVecConfig::default() }).map_err(|e| e.to_string())? };
+                        src.extend(xs.iter().copied()).map_err(|e| e.to_string())?;
+                        h.copy_from_simd(&src).map_err(|e| e.to_string())
+                    })();
+                    mem = xs;
+                    r
+                }
                 0 | 1 => {
                     let n = [1usize, 3, 40, 70, 130, 200][(o[1] % 6) as usize];
                     let xs: Vec<u8> = (0..n).map(|i| ctr.wrapping_mul(31).wrapping_add(i as u8)).collect();
@@ -1008,7 +1179,7 @@ fn mmapvec8_recover(path: &Path) -> Outcome<Vec<u8>> {
 // =======================================================================================
 // PlainBlobStore (a directory of record files)
 
-use zipora::blob_store::{BlobStore, IterableBlobStore, PlainBlobStore};
+use zipora::blob_store::{BatchBlobStore, BlobStore, IterableBlobStore, PlainBlobStore};
 
 type DirState = BTreeMap<u32, Vec<u8>>;
 
@@ -1032,6 +1203,15 @@ fn plain_readout(dir: &Path) -> Result<DirState, String> {
     }
     if st.len() != ids.len() {
         return Err("len() disagrees with iter_ids()".into());
+    }
+    // the other observers: contains() and the batch front end
+    let beyond = ids.iter().max().map(|x| x + 1).unwrap_or(1);
+    if ids.iter().any(|id| !st.contains(*id)) || st.contains(beyond) {
+        return Err("contains() disagrees with iter_ids()".into());
+    }
+    let batch = st.get_batch(ids.iter().copied().chain(std::iter::once(beyond))).map_err(|e| e.to_string())?;
+    if batch.len() != ids.len() + 1 || batch.last() != Some(&None) || ids.iter().zip(batch.iter()).any(|(id, b)| b.as_ref() != m.get(id)) {
+        return Err("get_batch() disagrees with get()".into());
     }
     Ok(m)
 }
@@ -1101,7 +1281,63 @@ impl Scenario for PlainSc {
         while let (Some(o), true) = (ops.next(), store.is_some()) {
             nops += 1;
             let st = store.as_mut().unwrap();
-            match o[0] % 8 {
+            match o[0] % 11 {
+                8 => {
+                    // several records through the batch front end (each one is a put of its own)
+                    let n = 2 + (o[1] % 2) as usize;
+                    let blobs: Vec<Vec<u8>> = (0..n)
+                        .map(|j| {
+                            ctr += 1;
+                            let len = [0usize, 1, 9, 33, 600][((o[2] as usize) + j) % 5];
+                            let mut data = format!("b{}:", ctr).into_bytes();
+                            while data.len() < len {
+                                data.push(0x80 | ((ctr as u8).wrapping_mul(11).wrapping_add(data.len() as u8) & 0x7f));
+                            }
+                            data.truncate(len);
+                            data
+                        })
+                        .collect();
+                    match st.put_batch(blobs.clone()) {
+                        Ok(ids) if ids.len() == n => {
+                            for (id, data) in ids.iter().zip(blobs.iter()) {
+                                model.insert(*id, data.clone());
+                                states.push(model.clone());
+                                trans.push((states.len() - 1, *id, true));
+                            }
+                            cx.ev(format!("put_batch of {} records -> ids {:?} (S{})", n, ids, states.len() - 1));
+                        }
+                        Ok(ids) => {
+                            cx.ev(format!("put_batch of {} records -> {} ids; history ends here", n, ids.len()));
+                            break;
+                        }
+                        Err(e) => {
+                            cx.ev(format!("put_batch -> Err({}); history ends here", e));
+                            break;
+                        }
+                    }
+                }
+                9 => {
+                    if model.is_empty() {
+                        continue;
+                    }
+                    let a = *model.keys().nth((o[1] as usize) % model.len()).unwrap();
+                    let b = *model.keys().nth((o[2] as usize) % model.len()).unwrap();
+                    let r = st.remove_batch(vec![a, 2000 + (o[3] % 3) as u32, b]);
+                    for id in [a, b] {
+                        if model.remove(&id).is_some() {
+                            states.push(model.clone());
+                            trans.push((states.len() - 1, id, false));
+                        }
+                    }
+                    cx.ev(format!("remove_batch [{}, absent, {}] -> {:?} (S{})", a, b, r.ok(), states.len() - 1));
+                }
+                10 => {
+                    // a second handle on the same directory while the first one is alive
+                    let o2 = recover(&scen, &format!("second handle after op {}", nops), || plain_readout(&dir));
+                    let ok = judge_clean(cx, &mut v, "PlainBlobStore", "second handle", o2, &model, &show_dir);
+                    cx.ev(format!("second handle -> {}", if ok { "same content" } else { "DIFFERENT" }));
+                    cx.probe("second_handles");
+                }
                 0 | 1 | 2 | 3 => {
                     ctr += 1;
                     let len = match o[1] % 64 {
@@ -1344,6 +1580,15 @@ struct FileTarget<'a, S> {
     build: &'a mut dyn FnMut(&mut Run, usize, [u64; 4], &Path) -> Result<S, String>,
     readout: &'a dyn Fn(&Path) -> Result<S, String>,
     show: &'a dyn Fn(&S) -> String,
+    /// continued use of a file that was accepted as the durable state `S` (first path), with a
+    /// second scratch path to write to: Ok(None) = consistent, Ok(Some(text)) = not, Err = some call
+    /// reported an error
+    reuse: Option<&'a dyn Fn(&Path, &Path, &S) -> Result<Option<String>, String>>,
+    /// use every file that loads without error further, not only the ones whose content was durable
+    reuse_any_ok: bool,
+    /// further images that only the real code can produce (an abandoned builder ...): called with
+    /// the image path after the family; each call of the inner function judges one image it left there
+    extra_images: Option<&'a mut dyn FnMut(&mut Run, &Path, &mut dyn FnMut(&mut Run, &str, &str))>,
 }
 
 fn run_file_target<S: PartialEq + Clone>(cx: &mut Run, scen: &str, ft: FileTarget<S>) {
@@ -1385,14 +1630,48 @@ fn run_file_target<S: PartialEq + Clone>(cx: &mut Run, scen: &str, ft: FileTarge
         let states: Vec<(usize, &S)> = snaps[..=t].iter().enumerate().filter_map(|(i, s)| s.state.as_ref().map(|st| (i, st))).collect();
         cx.ev(format!("images of S{} -> S{}, file {} -> {} bytes, family {}", t - 1, t, old.as_ref().map(|o| o.len()).unwrap_or(0), new.len(), fam.name()));
         let mut tl = Tally::default();
+        let img2 = scratch.path("image2.bin");
+        // an accepted file is then USED (re-saved, reloaded, written through ...), not only read
+        let use_further = |cx: &mut Run, v: &mut Verdicts, fam: &str, desc: &str, o: &Outcome<S>| {
+            if let (Some(reuse), Outcome::Ok(st)) = (ft.reuse, o) {
+                if ft.reuse_any_ok || states.iter().any(|(_, d)| **d == *st) {
+                    let _ = std::fs::remove_file(&img2);
+                    cx.probe("accepted_images_used_further");
+                    match recover(scen, &format!("{} {} + continued use", fam, desc), || reuse(&img, &img2, st)) {
+                        Outcome::Ok(None) => {}
+                        Outcome::Ok(Some(msg)) => v.add(PRIO_IMAGE, "continued_use_mismatch", &format!("{}.reopen+use/{}", ft.target, fam), format!("image [{}] was accepted as {}; then: {}", desc, (ft.show)(st), msg)),
+                        Outcome::Refused => cx.probe("continued_use_reported_error"),
+                        Outcome::Panic(loc, msg) => v.add(PRIO_PANIC, "panic", &loc, format!("{} image [{}] continued use: {}", ft.target, desc, msg)),
+                    }
+                }
+            }
+        };
+        // (the undamaged file first)
+        if std::fs::write(&img, &new).is_ok() {
+            let o = recover(scen, "undamaged copy", || (ft.readout)(&img));
+            use_further(cx, &mut v, "clean", "undamaged copy", &o);
+        }
         for_each_image(fam, old.as_deref(), &new, &fault, &mut |desc, bytes| {
             if std::fs::write(&img, bytes).is_err() {
                 return;
             }
             let o = recover(scen, &format!("{} {}", fam.name(), desc), || (ft.readout)(&img));
+            use_further(cx, &mut v, fam.name(), desc, &o);
             judge(cx, &mut v, &mut tl, ft.target, fam.name(), desc, o, &states, ft.show);
         });
         tally_event(cx, fam.name(), &tl);
+        if let Some(extra) = ft.extra_images {
+            let mut tl2 = Tally::default();
+            let mut n_extra = 0u64;
+            extra(cx, &img, &mut |cx: &mut Run, famx: &str, desc: &str| {
+                let o = recover(scen, &format!("{} {}", famx, desc), || (ft.readout)(&img));
+                judge(cx, &mut v, &mut tl2, ft.target, famx, desc, o, &states, ft.show);
+                n_extra += 1;
+            });
+            if n_extra > 0 {
+                tally_event(cx, "real_code_images", &tl2);
+            }
+        }
         cx.nontrivial = tl.images > 0;
     }
     v.report(cx);
@@ -1407,15 +1686,54 @@ type MapState = (usize, i64, Vec<usize>);
 
 fn show_map(s: &MapState) -> String {
     let head: Vec<String> = s.2.iter().take(8).map(|x| x.to_string()).collect();
-    format!("size()={} delivered={} [{}{}]", s.0, s.2.len(), head.join(","), if s.2.len() > 8 { ",.." } else { "" })
+    let note = match s.1 {
+        0 => "",
+        -1 => " (eof() true before size() values, or len() != 0 at eof)",
+        -2 => " (index()/current()/len()/size_hint() disagree with next())",
+        _ => " (next() returned None while eof() was false)",
+    };
+    format!("size()={} delivered={} [{}{}]{}", s.0, s.2.len(), head.join(","), if s.2.len() > 8 { ",.." } else { "" }, note)
 }
 
 fn reorder_readout(path: &Path) -> Result<MapState, String> {
     let mut m = ZReorderMap::open(path).map_err(|e| e.to_string())?;
     let size = m.size();
     let mut vals = Vec::new();
-    while let Some(x) = m.next() {
-        vals.push(x);
+    // the other observers of the same position: eof(), index(), current(), len()/size_hint()
+    loop {
+        let i = vals.len();
+        if m.eof() {
+            if m.len() != 0 || i != size {
+                return Ok((size, -1, vals));
+            }
+            break;
+        }
+        let (idx, cur, left) = (m.index(), m.current(), m.len());
+        match m.next() {
+            Some(x) => {
+                if idx != i || cur != x || left != size - i || m.size_hint() != (size - i - 1, Some(size - i - 1)) {
+                    // (reported as a state that was never durable: the -2 marks which observer)
+                    vals.push(x);
+                    return Ok((size, -2, vals));
+                }
+                vals.push(x);
+            }
+            None => return Ok((size, -3, vals)),
+        }
+    }
+    // a second handle on the same file while this one is open, read in full
+    {
+        let other: Vec<usize> = ZReorderMap::open(path).map_err(|e| e.to_string())?.collect();
+        if other != vals {
+            return Err("a second handle delivers other values".into());
+        }
+    }
+    // half a pass, then rewind
+    if size >= 2 {
+        m.rewind().map_err(|e| e.to_string())?;
+        for _ in 0..size / 2 {
+            m.next();
+        }
     }
     // a second pass must deliver the same
     m.rewind().map_err(|e| e.to_string())?;
@@ -1444,9 +1762,13 @@ impl Scenario for ReorderSc {
     }
     fn run(&self, cx: &mut Run) {
         let scen = self.name();
+        let mut prev_vals: Vec<usize> = vec![];
+        let last_build: std::cell::RefCell<(Vec<usize>, i64)> = std::cell::RefCell::new((vec![], 1));
         let mut build = |cx: &mut Run, k: usize, o: [u64; 4], path: &Path| -> Result<MapState, String> {
             let mut r = Rng::new(o[1] << 20 | o[2]);
-            let n = match o[0] % 16 {
+            let n = match o[0] % 18 {
+                16 => 16_384 + (o[1] % 3000) as usize,
+                17 => prev_vals.len(),
                 0 => 0,
                 1 => 1,
                 2 => 2,
@@ -1463,7 +1785,22 @@ impl Scenario for ReorderSc {
             let mut vals: Vec<usize> = Vec::with_capacity(n);
             // every third map is made of single values only, so that the builder's 4 KiB write
             // buffer fills up and is flushed before finish()
-            let singles_only = (o[3] / 3) % 3 == 0;
+            let singles_only = (o[3] / 3) % 3 == 0 && o[0] % 18 != 16;
+            if o[0] % 18 == 16 {
+                // one run long enough for a three-byte length; descending runs may end at 0
+                let base = if sign > 0 { 7 + r.below(50) as usize } else if r.below(2) == 0 { n - 1 } else { n + r.below(50) as usize };
+                for j in 0..n {
+                    vals.push(if sign > 0 { base + j } else { base - j });
+                }
+                cx.probe("reorder_run_with_three_byte_length");
+            }
+            if o[0] % 18 == 17 && !prev_vals.is_empty() {
+                // the previous map again (same path, same size) with one value changed
+                vals = prev_vals.clone();
+                let i = (o[2] as usize) % vals.len();
+                vals[i] = 400 + r.below(5000) as usize;
+                cx.probe("reorder_previous_map_one_value_changed");
+            }
             while vals.len() < n {
                 let run = match if singles_only { 0 } else { r.below(8) } {
                     0 | 1 | 2 => 1,
@@ -1473,23 +1810,87 @@ impl Scenario for ReorderSc {
                     _ => 1,
                 }
                 .min(n - vals.len());
-                let base = if r.below(20) == 0 { 0x7FFF_FFFF_FF - 400 + r.below(100) as usize } else { 400 + r.below(5000) as usize + k * 10_000 };
+                let base = if r.below(20) == 0 {
+                    0x7FFF_FFFF_FF - 400 + r.below(100) as usize
+                } else if sign < 0 && r.below(12) == 0 {
+                    run - 1 // a descending run that ends at exactly 0
+                } else {
+                    400 + r.below(5000) as usize + k * 10_000
+                };
                 for j in 0..run {
                     vals.push(if sign > 0 { base + j } else { base - j });
                 }
             }
             cx.ev(format!("build {}: ZReorderMapBuilder::new(size={}, sign={}), push x{}, finish", k, n, sign, n));
             let mut b = ZReorderMapBuilder::new(path, n, sign).map_err(|e| e.to_string())?;
-            for x in &vals {
+            // one build in four also makes the two mistakes the builder documents as errors (a value
+            // beyond 40 bits half-way, one push too many at the end) and carries on: the refused
+            // pushes must leave no trace in the file
+            let mistakes = (o[3] / 9) % 4 == 0;
+            for (i, x) in vals.iter().enumerate() {
+                if mistakes && i == n / 2 {
+                    if b.push(0x80_0000_0000).is_ok() {
+                        return Err("the builder accepted a 41-bit value".into());
+                    }
+                    cx.probe("reorder_builder_used_after_refused_push");
+                }
                 b.push(*x).map_err(|e| e.to_string())?;
+            }
+            if mistakes && b.push(7).is_ok() {
+                return Err("the builder accepted more values than announced".into());
             }
             b.finish().map_err(|e| e.to_string())?;
             if std::fs::metadata(path).map(|m| m.len()).unwrap_or(0) > 16 + 4096 {
                 cx.probe("reorder_builder_buffer_flushed_before_finish");
             }
+            prev_vals = vals.clone();
+            *last_build.borrow_mut() = (vals.clone(), sign);
             Ok((n, 0, vals))
         };
-        run_file_target(cx, &scen, FileTarget { target: "ZReorderMap", file: "reorder.map", fams: &ALL_FAMS, build: &mut build, readout: &reorder_readout, show: &show_map });
+        // What a builder that never reached finish() leaves behind (the process died, or finish()
+        // refused because elements were missing): the declared size in the header, the entries
+        // flushed so far.  Produced by the real builder, not assumed.
+        let mut aborted = |cx: &mut Run, img: &Path, judge_one: &mut dyn FnMut(&mut Run, &str, &str)| {
+            let (vals, sign) = last_build.borrow().clone();
+            let n = vals.len();
+            if n == 0 {
+                return;
+            }
+            let mut ks: Vec<usize> = vec![0, 1, n / 2, n - 1];
+            // around the 4 KiB flushes of the write buffer (single values take 5 bytes each)
+            for f in [820usize, 1640] {
+                if f < n {
+                    ks.push(f);
+                }
+            }
+            ks.sort_unstable();
+            ks.dedup();
+            for k in ks {
+                if k >= n {
+                    continue;
+                }
+                let how = (k + n) % 2;
+                let r = (|| -> Result<(), String> {
+                    let mut b = ZReorderMapBuilder::new(img, n, sign).map_err(|e| e.to_string())?;
+                    for x in &vals[..k] {
+                        b.push(*x).map_err(|e| e.to_string())?;
+                    }
+                    if how == 0 {
+                        drop(b);
+                    } else if b.finish().is_ok() {
+                        return Err("finish() accepted a builder with elements missing".into());
+                    }
+                    Ok(())
+                })();
+                if r.is_err() {
+                    cx.probe("reorder_aborted_builder_setup_failed");
+                    continue;
+                }
+                cx.fault("builder_abandoned");
+                judge_one(cx, "builder_abandoned", &format!("builder for {} values {} after {} pushes", n, if how == 0 { "dropped" } else { "refused by finish()" }, k));
+            }
+        };
+        run_file_target(cx, &scen, FileTarget { target: "ZReorderMap", file: "reorder.map", fams: &ALL_FAMS, build: &mut build, readout: &reorder_readout, show: &show_map, reuse: None, reuse_any_ok: false, extra_images: Some(&mut aborted) });
     }
 }
 
@@ -1517,6 +1918,40 @@ fn zipoffset_state(st: &ZipOffsetBlobStore) -> Result<RecState, String> {
 fn zipoffset_readout(path: &Path) -> Result<RecState, String> {
     let st = ZipOffsetBlobStore::load_from_file(path).map_err(|e| e.to_string())?;
     zipoffset_state(&st)
+}
+
+/// Continued use of a loaded store: every accessor once more (out-of-range ids included), then
+/// saved again under another name and loaded from there.
+fn zipoffset_reuse(img: &Path, img2: &Path, st0: &RecState) -> Result<Option<String>, String> {
+    let st = ZipOffsetBlobStore::load_from_file(img).map_err(|e| e.to_string())?;
+    let n = st.len();
+    if st.get(n as u32).is_ok() || st.contains(n as u32) || matches!(st.size(n as u32), Ok(Some(_))) {
+        return Ok(Some(format!("record id {} (= len()) is served", n)));
+    }
+    for i in 0..n {
+        if !st.contains(i as u32) {
+            return Ok(Some(format!("contains({}) is false with len() {}", i, n)));
+        }
+        if let (Ok(d), Ok(Some(sz))) = (st.get(i as u32), st.size(i as u32)) {
+            if d.len() != sz {
+                return Ok(Some(format!("size({}) = {} but get returns {} bytes", i, sz, d.len())));
+            }
+        }
+    }
+    st.save_to_file(img2).map_err(|e| e.to_string())?;
+    let again = zipoffset_readout(img2)?;
+    if again != *st0 {
+        return Ok(Some(format!("saved again and loaded: {}", show_recs(&again))));
+    }
+    // through the reader/writer front end as well
+    let mut buf: Vec<u8> = vec![];
+    st.save_to_writer(&mut buf).map_err(|e| e.to_string())?;
+    let st3 = ZipOffsetBlobStore::load_from_reader(&mut &buf[..]).map_err(|e| e.to_string())?;
+    let third = zipoffset_state(&st3)?;
+    if third != *st0 {
+        return Ok(Some(format!("save_to_writer + load_from_reader: {}", show_recs(&third))));
+    }
+    Ok(None)
 }
 
 struct ZipOffsetSc;
@@ -1555,7 +1990,7 @@ impl Scenario for ZipOffsetSc {
             st.save_to_file(path).map_err(|e| e.to_string())?;
             Ok(state)
         };
-        run_file_target(cx, &scen, FileTarget { target: "ZipOffsetBlobStore", file: "store.zo", fams: &ALL_FAMS, build: &mut build, readout: &zipoffset_readout, show: &show_recs });
+        run_file_target(cx, &scen, FileTarget { target: "ZipOffsetBlobStore", file: "store.zo", fams: &ALL_FAMS, build: &mut build, readout: &zipoffset_readout, show: &show_recs, reuse: Some(&zipoffset_reuse), reuse_any_ok: true, extra_images: None });
     }
 }
 
@@ -1563,15 +1998,15 @@ impl Scenario for ZipOffsetSc {
 // SuffixArrayDictionary::save_to_file / load_from_file, also through
 // DictZipBlobStore::{from_dictionary_file, save_dictionary, load_dictionary}
 
-use zipora::compression::dict_zip::{DictZipBlobStore, DictZipConfig, SuffixArrayDictionary, SuffixArrayDictionaryConfig};
+use zipora::compression::dict_zip::{DictZipBlobStore, DictZipBlobStoreBuilder, DictZipConfig, SuffixArrayDictionary, SuffixArrayDictionaryConfig};
 
 #[derive(Clone, PartialEq)]
 struct DictState {
     text: Vec<u8>,
     min_len: usize,
     max_len: usize,
-    /// longest-match length for each probe of the run
-    matches: Vec<Option<usize>>,
+    /// longest match (length, position in the dictionary text) for each probe of the run
+    matches: Vec<Option<(usize, usize)>>,
     /// a blob put into a DictZipBlobStore opened on the file comes back unchanged
     store_roundtrip: Option<bool>,
 }
@@ -1584,7 +2019,7 @@ fn dict_state(d: &mut SuffixArrayDictionary, probes: &[Vec<u8>]) -> Result<DictS
     let mut matches = vec![];
     for p in probes {
         let m = d.find_longest_match(p, 0, 64).map_err(|e| e.to_string())?;
-        matches.push(m.map(|m| m.length));
+        matches.push(m.map(|m| (m.length, m.dict_position)));
     }
     Ok(DictState { text: d.data().to_vec(), min_len: d.config().min_pattern_length, max_len: d.config().max_pattern_length, matches, store_roundtrip: None })
 }
@@ -1603,8 +2038,35 @@ fn dict_readout(path: &Path, probes: &[Vec<u8>], through_store: bool) -> Result<
         let got = store.get(id).map_err(|e| e.to_string())?;
         st.store_roundtrip = Some(got == blob);
         store.load_dictionary(path).map_err(|e| e.to_string())?;
+        // ... and the store is used after the dictionary was loaded into it: a shorter and a longer blob
+        for cut in [blob.len() / 3, blob.len()] {
+            let mut b2 = blob[..cut].to_vec();
+            b2.extend_from_slice(&blob);
+            let id2 = store.put(&b2).map_err(|e| e.to_string())?;
+            let got2 = store.get(id2).map_err(|e| e.to_string())?;
+            if got2 != b2 {
+                st.store_roundtrip = Some(false);
+            }
+        }
     }
     Ok(st)
+}
+
+/// Continued use of a dictionary file that was accepted: loaded, saved under another name,
+/// loaded from there, asked the same questions.
+fn dict_reuse(img: &Path, img2: &Path, st0: &DictState, probes: &[Vec<u8>], through_store: bool) -> Result<Option<String>, String> {
+    if through_store {
+        let store = DictZipBlobStore::from_dictionary_file(img, dictzip_config()).map_err(|e| e.to_string())?;
+        store.save_dictionary(img2).map_err(|e| e.to_string())?;
+    } else {
+        let d = SuffixArrayDictionary::load_from_file(img).map_err(|e| e.to_string())?;
+        d.save_to_file(img2).map_err(|e| e.to_string())?;
+    }
+    let again = dict_readout(img2, probes, through_store)?;
+    if again != *st0 {
+        return Ok(Some(format!("loaded, saved again and loaded from there: {}", show_dict(&again))));
+    }
+    Ok(None)
 }
 
 struct DictSc {
@@ -1640,6 +2102,10 @@ impl Scenario for DictSc {
         let probes2 = probes.clone();
         let scratch2 = Scratch::new(cx, "dict-tmp");
         let tmp = scratch2.path("direct.dict");
+        let ext = scratch2.path("external.dict");
+        let ext2 = scratch2.path("external-saved.dict");
+        let side: std::cell::RefCell<Option<String>> = std::cell::RefCell::new(None);
+        let mut prev_text: Vec<u8> = vec![];
         let mut build = |cx: &mut Run, k: usize, o: [u64; 4], path: &Path| -> Result<DictState, String> {
             let mut r = Rng::new(o[1] << 20 | o[2]);
             let nwords = [2usize, 4, 6, 12, 20, 6, 60, 2][(o[0] % 8) as usize];
@@ -1650,9 +2116,52 @@ impl Scenario for DictSc {
                     text.push(b'A' + r.below(26) as u8);
                 }
             }
+            // every third later build is related to the one before it at the same path: the same
+            // text again, one byte changed (same length), or the old text with more behind it
+            if !prev_text.is_empty() && o[2] % 3 == 0 {
+                match o[2] / 3 % 3 {
+                    0 => text = prev_text.clone(),
+                    1 => {
+                        text = prev_text.clone();
+                        let i = (o[1] as usize) % text.len();
+                        text[i] = b'A' + ((text[i] as u64 + 1 + o[3] % 20) % 26) as u8;
+                    }
+                    _ => {
+                        let mut t2 = prev_text.clone();
+                        t2.extend_from_slice(&text);
+                        text = t2;
+                    }
+                }
+                cx.probe("dictionary_text_derived_from_previous_build");
+            }
+            prev_text = text.clone();
             let config = SuffixArrayDictionaryConfig { min_frequency: 1 + (o[3] % 4) as u32, max_bfs_depth: 2 + (o[3] / 4 % 4) as u32, min_pattern_length: 2 + (o[3] / 16 % 3) as usize, max_pattern_length: 16 + (o[3] / 64 % 3) as usize * 24, max_cache_states: 4096, use_memory_pool: o[3] / 256 % 2 == 0, ..SuffixArrayDictionaryConfig::default() };
             let mut d = SuffixArrayDictionary::new(&text, config).map_err(|e| e.to_string())?;
             let mut state = dict_state(&mut d, &probes)?;
+            if through_store && o[3] / 512 % 3 == 0 {
+                // The builder of the store can write its dictionary to an external file by itself
+                // (DictZipConfig::with_external_dictionary).  Which patterns that dictionary holds
+                // depends on HashMap iteration order inside DictionaryBuilder, so its bytes differ
+                // from process to process: it gets no images and nothing of it goes into events; the
+                // one thing checked is that the file the builder wrote reads back as the same
+                // dictionary the finished store writes through save_dictionary.
+                let r = (|| -> Result<bool, String> {
+                    let mut b = DictZipBlobStoreBuilder::with_config(dictzip_config().with_external_dictionary(&ext)).map_err(|e| e.to_string())?;
+                    b.add_training_sample(&text).map_err(|e| e.to_string())?;
+                    let store = b.finish().map_err(|e| e.to_string())?;
+                    store.save_dictionary(&ext2).map_err(|e| e.to_string())?;
+                    let a = dict_readout(&ext, &probes, true).map_err(|e| format!("the file written by the builder does not load: {}", e))?;
+                    let b2 = dict_readout(&ext2, &probes, true)?;
+                    Ok(a == b2)
+                })();
+                cx.probe("dictionary_written_by_store_builder");
+                match r {
+                    Ok(true) => {}
+                    Ok(false) => *side.borrow_mut() = Some("the dictionary file written by DictZipBlobStoreBuilder::finish (with_external_dictionary) reads back as a different dictionary than the one the finished store saves".to_string()),
+                    Err(e) if e.starts_with("the file written") => *side.borrow_mut() = Some(e),
+                    Err(_) => cx.probe("store_builder_reported_error"),
+                }
+            }
             if through_store {
                 // the store is opened on a dictionary file and writes its dictionary out again
                 d.save_to_file(&tmp).map_err(|e| e.to_string())?;
@@ -1666,9 +2175,15 @@ impl Scenario for DictSc {
             }
             Ok(state)
         };
+        let probes3 = probes.clone();
+        let reuse = move |a: &Path, b: &Path, st: &DictState| dict_reuse(a, b, st, &probes3, through_store);
         let readout = move |p: &Path| dict_readout(p, &probes2, through_store);
         let target = if through_store { "DictZipBlobStore" } else { "SuffixArrayDictionary" };
-        run_file_target(cx, &scen, FileTarget { target, file: "dictionary.bin", fams: &ALL_FAMS, build: &mut build, readout: &readout, show: &show_dict });
+        run_file_target(cx, &scen, FileTarget { target, file: "dictionary.bin", fams: &ALL_FAMS, build: &mut build, readout: &readout, show: &show_dict, reuse: Some(&reuse), reuse_any_ok: false, extra_images: None });
+        let side_msg = side.borrow_mut().take();
+        if let Some(msg) = side_msg {
+            cx.violate("clean_reopen_mismatch", "DictZipBlobStoreBuilder.external_dictionary/clean", msg);
+        }
     }
 }
 
@@ -1804,7 +2319,7 @@ impl Scenario for SerialSc {
                 }
             }
         };
-        run_file_target(cx, &scen, FileTarget { target: ["HuffmanTree", "ContextualHuffmanEncoder", "entropy::Dictionary"][kind as usize], file: "serialized.bin", fams: &[Fam::Trunc], build: &mut build, readout: &readout, show: &show_ser });
+        run_file_target(cx, &scen, FileTarget { target: ["HuffmanTree", "ContextualHuffmanEncoder", "entropy::Dictionary"][kind as usize], file: "serialized.bin", fams: &[Fam::Trunc], build: &mut build, readout: &readout, show: &show_ser, reuse: None, reuse_any_ok: false, extra_images: None });
     }
 }
 
@@ -1814,10 +2329,120 @@ impl Scenario for SerialSc {
 // statement promises are: no fault, and nothing beyond what the file (its length) can vouch
 // for - every successful read must return exactly the image's bytes.
 
-use zipora::io::{DataInput, DataOutput, MemoryMappedInput, MemoryMappedOutput};
+use zipora::io::{AccessPattern, DataInput, DataOutput, MemoryMappedInput, MemoryMappedOutput};
 
-fn mmio_readout(path: &Path, chunks: &[usize]) -> Result<Vec<u8>, String> {
-    let mut inp = MemoryMappedInput::from_path(path).map_err(|e| e.to_string())?;
+/// LEB128 as the writer encodes it: (value, bytes used), None when cut short or longer than 9 bytes
+/// (the tenth byte's upper bits have no agreed meaning; such positions are not judged).
+fn leb128(b: &[u8]) -> Option<(u64, usize)> {
+    let mut v = 0u64;
+    for (i, x) in b.iter().take(9).enumerate() {
+        v |= ((x & 0x7f) as u64) << (7 * i);
+        if x & 0x80 == 0 {
+            return Some((v, i + 1));
+        }
+    }
+    None
+}
+
+/// Second pass over an input whose content `all` is known (from the first pass): typed reads,
+/// peeks, zero-copy reads and skips chosen by `plan`.  Ok(None) = everything agreed or was
+/// refused; Ok(Some(text)) = something was served that the file does not hold.
+fn mmio_typed_pass(inp: &mut MemoryMappedInput, all: &[u8], plan: &[u8]) -> Result<Option<String>, String> {
+    let n = all.len();
+    inp.seek(0).map_err(|e| e.to_string())?;
+    let mut pos = 0usize;
+    for step in 0..18 {
+        if pos >= n {
+            break;
+        }
+        let kind = plan[step % plan.len()];
+        let left = n - pos;
+        // (what was served, how far the position must have moved)
+        let (served, adv, want_len): (Option<Vec<u8>>, usize, usize) = match kind {
+            0 => (inp.read_u8().ok().map(|x| vec![x]), 1, 1),
+            1 => (inp.read_u16().ok().map(|x| x.to_le_bytes().to_vec()), 2, 2),
+            2 => (inp.read_u32().ok().map(|x| x.to_le_bytes().to_vec()), 4, 4),
+            3 => (inp.read_u64().ok().map(|x| x.to_le_bytes().to_vec()), 8, 8),
+            4 => {
+                let mut buf = [0u8; 5];
+                (inp.read_bytes(&mut buf).ok().map(|_| buf.to_vec()), 5, 5)
+            }
+            5 => (inp.skip(3).ok().map(|_| all[pos..(pos + 3).min(n)].to_vec()), 3, 3),
+            6 => (inp.peek_slice(4).ok(), 0, 4),
+            7 => (inp.read_slice_zero_copy(6).ok().map(|x| x.to_vec()), 6, 6),
+            8 => (inp.peek_slice_zero_copy(70).ok().map(|x| x.to_vec()), 0, 70),
+            9 => {
+                // a var_int is judged where the bytes hold one of at most 9 bytes
+                match leb128(&all[pos..]) {
+                    Some((val, used)) => match inp.read_var_int() {
+                        Ok(got) if got == val => (Some(all[pos..pos + used].to_vec()), used, used),
+                        Ok(got) => return Ok(Some(format!("read_var_int at {} returned {} but the bytes there encode {}", pos, got, val))),
+                        Err(_) => (None, 0, used),
+                    },
+                    None => (None, 0, usize::MAX),
+                }
+            }
+            _ => {
+                // a length-prefixed string is read only where the bytes hold a sane length
+                match leb128(&all[pos..]) {
+                    Some((len, used)) if len <= 1 << 20 => match inp.read_length_prefixed_string() {
+                        Ok(st) => {
+                            let l = len as usize;
+                            if used + l > left || st.as_bytes() != &all[pos + used..pos + used + l] {
+                                return Ok(Some(format!("read_length_prefixed_string at {} returned {} bytes that are not in the file there ({} bytes left)", pos, st.len(), left)));
+                            }
+                            (Some(all[pos..pos + used + l].to_vec()), used + l, used + l)
+                        }
+                        Err(_) => (None, 0, used),
+                    },
+                    _ => (None, 0, usize::MAX),
+                }
+            }
+        };
+        match served {
+            Some(bytes) => {
+                if want_len > left {
+                    return Ok(Some(format!("typed read kind {} of {} bytes at {} succeeded with only {} bytes left", kind, want_len, pos, left)));
+                }
+                if bytes != all[pos..pos + want_len] {
+                    return Ok(Some(format!("typed read kind {} at {} returned {} but the file holds {}", kind, pos, hex(&bytes, 8), hex(&all[pos..pos + want_len], 8))));
+                }
+                pos += adv;
+                if inp.position() != pos || inp.remaining() != n - pos {
+                    return Ok(Some(format!("after typed read kind {}: position() {} remaining() {}, expected {} and {}", kind, inp.position(), inp.remaining(), pos, n - pos)));
+                }
+            }
+            None => {
+                // refused (end of data, strategy without peek/zero-copy, no var_int here): go on one
+                // byte further from a known position
+                pos += 1;
+                if inp.seek(pos).is_err() {
+                    break;
+                }
+            }
+        }
+    }
+    Ok(None)
+}
+
+/// The remark a read-out appended to the bytes when an observer disagreed (`<...>` at the end).
+fn mmio_note(b: &[u8]) -> String {
+    match (b.last(), b.iter().rposition(|x| *x == b'<')) {
+        (Some(b'>'), Some(i)) => format!(" {}", String::from_utf8_lossy(&b[i..])),
+        _ => String::new(),
+    }
+}
+
+fn mmio_readout(path: &Path, chunks: &[usize], plan: &[u8], typed: bool) -> Result<Vec<u8>, String> {
+    // plan[0] also chooses the access-pattern hint the file is opened with (11 = none given)
+    let mut inp = match plan[0] % 5 {
+        0 => MemoryMappedInput::from_path(path),
+        1 => MemoryMappedInput::from_path_with_pattern(path, AccessPattern::Sequential),
+        2 => MemoryMappedInput::from_path_with_pattern(path, AccessPattern::Random),
+        3 => MemoryMappedInput::from_path_with_pattern(path, AccessPattern::Mixed),
+        _ => std::fs::File::open(path).map_err(|e| zipora::ZiporaError::io_error(e.to_string())).and_then(|f| MemoryMappedInput::new_with_pattern(f, AccessPattern::Unknown)),
+    }
+    .map_err(|e| e.to_string())?;
     let n = inp.len();
     let mut out = Vec::with_capacity(n);
     let mut ci = 0;
@@ -1846,7 +2471,55 @@ fn mmio_readout(path: &Path, chunks: &[usize]) -> Result<Vec<u8>, String> {
             return Ok(o2);
         }
     }
+    if !typed {
+        return Ok(out);
+    }
+    if let Some(msg) = mmio_typed_pass(&mut inp, &out, plan)? {
+        let mut o2 = out.clone();
+        o2.extend_from_slice(format!("<{}>", msg).as_bytes());
+        return Ok(o2);
+    }
     Ok(out)
+}
+
+/// Continued use of an image: open it for writing, overwrite three bytes in the middle, append
+/// behind the end (the file grows), flush, and read everything back.
+fn mmio_continue(img: &Path, base: &[u8], chunks: &[usize], plan: &[u8]) -> Result<Option<String>, String> {
+    let mut h = MemoryMappedOutput::open(img).map_err(|e| e.to_string())?;
+    let cap = h.capacity();
+    if cap != base.len() {
+        return Ok(Some(format!("open reports capacity {} for a file of {} bytes", cap, base.len())));
+    }
+    let mut model = base.to_vec();
+    let mid = cap / 2;
+    h.seek(mid).map_err(|e| e.to_string())?;
+    h.write_slice(&[0xC1, 0xC2, 0xC3]).map_err(|e| e.to_string())?;
+    if model.len() < mid + 3 {
+        model.resize(mid + 3, 0);
+    }
+    model[mid..mid + 3].copy_from_slice(&[0xC1, 0xC2, 0xC3]);
+    let end = h.capacity();
+    if end < model.len() {
+        return Ok(Some(format!("capacity {} after writing up to {}", end, model.len())));
+    }
+    model.resize(end, 0);
+    let tail: Vec<u8> = (0..40u8).map(|i| 0xD0 | (i & 0x0f)).collect();
+    h.seek(end).map_err(|e| e.to_string())?;
+    h.write_slice(&tail).map_err(|e| e.to_string())?;
+    model.extend_from_slice(&tail);
+    h.flush().map_err(|e| e.to_string())?;
+    let cap2 = h.capacity();
+    drop(h);
+    if cap2 < model.len() {
+        return Ok(Some(format!("capacity {} after writing up to {}", cap2, model.len())));
+    }
+    model.resize(cap2, 0);
+    let got = mmio_readout(img, chunks, plan, true)?;
+    if got != model {
+        let at = got.iter().zip(model.iter()).position(|(a, b)| a != b).unwrap_or(got.len().min(model.len()));
+        return Ok(Some(format!("after overwrite at {} + append at {} + flush the file reads back as {} bytes, expected {} bytes, first difference at offset {}", mid, end, got.len(), model.len(), at)));
+    }
+    Ok(None)
 }
 
 struct MmapIoSc;
@@ -1870,6 +2543,14 @@ impl Scenario for MmapIoSc {
         let fam = pick_family(&cfg, &[Fam::Trunc, Fam::Block, Fam::OldExt, Fam::ZeroTail]);
         let chunks: Vec<usize> = (0..4).map(|_| *cfg.pick(&[1usize, 3, 7, 64, 500, 4096, 100_000])).collect();
         let which_t = cfg.small(4) as usize;
+        // (new knobs are drawn from their own channel: the meaning of the cfg tape stays as it was)
+        let knobs = cx.src.chan("knobs");
+        let plan: Vec<u8> = (0..6).map(|_| knobs.below(11) as u8).collect();
+        // (an empty file to start with; rarely one beyond the 64 KiB where the sequential hint prefetches)
+        let init = if knobs.chance(1, 12) { 0 } else { init };
+        let init = if knobs.chance(1, 25) { 70_000 } else { init };
+        // (thousands of truncations of a file that size cost more than they tell: the families with few images)
+        let fam = if init == 70_000 && fam == Fam::Trunc { Fam::ZeroTail } else { fam };
         let scratch = Scratch::new(cx, "mmio");
         let path = scratch.path("out.bin");
         let img = scratch.path("image.bin");
@@ -1901,7 +2582,52 @@ impl Scenario for MmapIoSc {
             let h = out.as_mut().unwrap();
             let mut durable = false;
             let what: String;
-            let res: Result<(), String> = match o[0] % 10 {
+            let res: Result<(), String> = match o[0] % 11 {
+                10 => {
+                    // the typed writers of DataOutput
+                    let x = 0x8182_8384_8586_8788u64 ^ (o[1] & 0x7f7f);
+                    match o[2] % 5 {
+                        0 => {
+                            what = format!("write_u8 at {}", pos);
+                            put(&mut model, &mut pos, &[x as u8]);
+                            h.write_u8(x as u8).map_err(|e| e.to_string())
+                        }
+                        1 => {
+                            what = format!("write_u16 at {}", pos);
+                            put(&mut model, &mut pos, &(x as u16).to_le_bytes());
+                            h.write_u16(x as u16).map_err(|e| e.to_string())
+                        }
+                        2 => {
+                            what = format!("write_u64 at {}", pos);
+                            put(&mut model, &mut pos, &x.to_le_bytes());
+                            h.write_u64(x).map_err(|e| e.to_string())
+                        }
+                        3 => {
+                            let val = [0u64, 1, 127, 128, 300, 16383, 16384, 1 << 40][(o[1] % 8) as usize];
+                            what = format!("write_var_int {} at {}", val, pos);
+                            let mut enc = vec![];
+                            let mut l = val;
+                            loop {
+                                let b = (l & 0x7f) as u8;
+                                l >>= 7;
+                                if l != 0 {
+                                    enc.push(b | 0x80);
+                                } else {
+                                    enc.push(b);
+                                    break;
+                                }
+                            }
+                            put(&mut model, &mut pos, &enc);
+                            h.write_var_int(val).map_err(|e| e.to_string())
+                        }
+                        _ => {
+                            let data: Vec<u8> = (0..(1 + o[1] % 9) as u8).map(|j| 0xA0 | j).collect();
+                            what = format!("write_bytes {} bytes at {}", data.len(), pos);
+                            put(&mut model, &mut pos, &data);
+                            h.write_bytes(&data).map_err(|e| e.to_string())
+                        }
+                    }
+                }
                 0 | 1 | 2 => {
                     let n = [1usize, 2, 5, 16, 100, 5, 16, 700, 1, 2, 100, 3000][(o[1] % 12) as usize];
                     ctr = ctr.wrapping_add(1);
@@ -1975,8 +2701,8 @@ impl Scenario for MmapIoSc {
                 let cap = out.as_ref().map(|h| h.capacity()).unwrap_or(0);
                 let mut want = model.clone();
                 want.resize(cap, 0);
-                let o2 = recover(&scen, &format!("clean reopen after op {} ({})", nops, what), || mmio_readout(&path, &chunks));
-                let show = |b: &Vec<u8>| format!("{} bytes {}", b.len(), hex(b, 12));
+                let o2 = recover(&scen, &format!("clean reopen after op {} ({})", nops, what), || mmio_readout(&path, &chunks, &plan, true));
+                let show = |b: &Vec<u8>| format!("{} bytes {}{}", b.len(), hex(b, 12), mmio_note(b));
                 if !judge_clean(cx, &mut v, "MemoryMappedOutput", &what, o2, &want, &show) {
                     break;
                 }
@@ -1998,21 +2724,38 @@ impl Scenario for MmapIoSc {
             let old = snaps[t - 1].clone();
             cx.ev(format!("images of S{} -> S{}, file {} -> {} bytes, family {}", t - 1, t, old.len(), new.len(), fam.name()));
             let mut tl = Tally::default();
+            let mut nimg = 0u64;
             for_each_image(fam, Some(&old), &new, &fault, &mut |desc, bytes| {
                 if std::fs::write(&img, bytes).is_err() {
                     return;
                 }
-                let o = recover(&scen, &format!("{} {}", fam.name(), desc), || mmio_readout(&img, &chunks));
+                // (the second, typed pass over every 8th image and the ones around the boundaries)
+                nimg += 1;
+                let l = bytes.len();
+                let special = l <= 10 || (4090..=4100).contains(&l) || l + 1 == new.len();
+                let o = recover(&scen, &format!("{} {}", fam.name(), desc), || mmio_readout(&img, &chunks, &plan, special || nimg % 8 == 1));
                 // the only state the image can vouch for is the image itself
                 let want = bytes.to_vec();
                 let states = [(t, &want)];
+                // every 32nd image and the ones around the strategy / page boundaries are then
+                // USED: opened for writing, overwritten, appended to, flushed, read back
+                if matches!(&o, Outcome::Ok(got) if *got == want) && (nimg % 32 == 1 || special) {
+                    let o3 = recover(&scen, &format!("{} {} + continued use", fam.name(), desc), || mmio_continue(&img, &want, &chunks, &plan));
+                    cx.probe("accepted_images_used_further");
+                    match o3 {
+                        Outcome::Ok(None) => {}
+                        Outcome::Ok(Some(msg)) => v.add(PRIO_IMAGE, "continued_use_mismatch", &format!("MemoryMappedOutput.open+use/{}", fam.name()), format!("image [{}] of {} bytes: {}", desc, l, msg)),
+                        Outcome::Refused => cx.probe("continued_use_reported_error"),
+                        Outcome::Panic(loc, msg) => v.add(PRIO_PANIC, "panic", &loc, format!("MemoryMappedOutput image [{}] continued use: {}", desc, msg)),
+                    }
+                }
                 match o {
                     Outcome::Ok(ref got) if *got != want => {
                         tl.images += 1;
                         tl.bad += 1;
                         cx.cell(format!("MemoryMappedInput/{}/wrong_bytes", fam.name()));
                         let at = got.iter().zip(want.iter()).position(|(a, b)| a != b).unwrap_or(got.len().min(want.len()));
-                        v.add(PRIO_IMAGE, "wrong_bytes", &format!("MemoryMappedInput.read/{}", fam.name()), format!("image [{}] of {} bytes was read back as {} bytes, first difference at offset {}", desc, want.len(), got.len(), at));
+                        v.add(PRIO_IMAGE, "wrong_bytes", &format!("MemoryMappedInput.read/{}", fam.name()), format!("image [{}] of {} bytes was read back as {} bytes, first difference at offset {}{}", desc, want.len(), got.len(), at, mmio_note(got)));
                     }
                     o => judge(cx, &mut v, &mut tl, "MemoryMappedInput", fam.name(), desc, o, &states, &|b: &Vec<u8>| format!("{} bytes", b.len())),
                 }
@@ -2020,6 +2763,434 @@ impl Scenario for MmapIoSc {
             tally_event(cx, fam.name(), &tl);
             cx.nontrivial = tl.images > 0;
         }
+        v.report(cx);
+    }
+}
+
+// =======================================================================================
+// algorithms::external_sort::ReplaceSelectSort - sorted run files written (flushed + fsynced
+// in finish_run) and reopened by the merge phase of the same `sort` call.
+//
+// Clean case: with a memory buffer of 1-8 elements the input goes through 1..n run files and
+// must come back complete and sorted.  Damage case: the statement's quantifier ("for the
+// resulting file(s): every truncation length ... then reopen and read everything") is applied to
+// a run file between its finish_run and its reopening by the merge.  The library offers no seam
+// between the two phases, but the input iterator is the caller's: when it is asked for the
+// element behind the last one, every run except possibly the one still being written is finished
+// and synced, and one of THOSE files (one with a higher-numbered sibling) is cut short / zero
+// filled / removed there.  Oracle: `Err` is fine; `Ok(v)` must be the complete sorted input;
+// a panic is a violation.
+
+use zipora::algorithms::{ExternalSort, ReplaceSelectSort, ReplaceSelectSortConfig};
+
+#[derive(Clone, Debug, PartialEq)]
+enum RunDamage {
+    Cut(usize),
+    ZeroFrom(usize),
+    Remove,
+}
+
+#[derive(Default)]
+struct RunDamageReport {
+    /// (run index, file length) of every run file that had a higher-numbered sibling at end of input
+    finished: Vec<(usize, usize)>,
+    applied: bool,
+}
+
+fn list_run_files(dir: &Path) -> Vec<(usize, PathBuf, usize)> {
+    let mut v = vec![];
+    if let Ok(rd) = std::fs::read_dir(dir) {
+        for e in rd.flatten() {
+            let name = e.file_name().to_string_lossy().to_string();
+            if let Some(stem) = name.strip_suffix(".tmp") {
+                if let Some(idx) = stem.rsplit('_').next().and_then(|s| s.parse::<usize>().ok()) {
+                    let len = e.metadata().map(|m| m.len() as usize).unwrap_or(0);
+                    v.push((idx, e.path(), len));
+                }
+            }
+        }
+    }
+    v.sort();
+    v
+}
+
+/// The caller's input iterator: hands out the elements and, when asked for more after the last
+/// one (once), looks at the run files and applies the damage.
+struct DamagingInput<T> {
+    inner: std::vec::IntoIter<T>,
+    dir: PathBuf,
+    damage: Option<(usize, RunDamage)>,
+    report: std::rc::Rc<std::cell::RefCell<RunDamageReport>>,
+    done: bool,
+}
+
+impl<T> Iterator for DamagingInput<T> {
+    type Item = T;
+    fn next(&mut self) -> Option<T> {
+        let x = self.inner.next();
+        if x.is_none() && !self.done {
+            self.done = true;
+            let files = list_run_files(&self.dir);
+            let top = files.iter().map(|f| f.0).max();
+            let mut rep = self.report.borrow_mut();
+            for (idx, _, len) in &files {
+                if Some(*idx) < top {
+                    rep.finished.push((*idx, *len));
+                }
+            }
+            if let Some((run, dmg)) = &self.damage {
+                if let Some((_, p, len)) = files.iter().find(|f| f.0 == *run && Some(f.0) < top) {
+                    match dmg {
+                        RunDamage::Cut(l) => {
+                            if let Ok(b) = std::fs::read(p) {
+                                rep.applied = std::fs::write(p, &b[..(*l).min(*len)]).is_ok();
+                            }
+                        }
+                        RunDamage::ZeroFrom(k) => {
+                            if let Ok(mut b) = std::fs::read(p) {
+                                for x in b.iter_mut().skip(*k) {
+                                    *x = 0;
+                                }
+                                rep.applied = std::fs::write(p, &b).is_ok();
+                            }
+                        }
+                        RunDamage::Remove => {
+                            rep.applied = std::fs::remove_file(p).is_ok();
+                        }
+                    }
+                }
+            }
+        }
+        x
+    }
+}
+
+struct ExtSortKnobs {
+    mem_items: usize,
+    secure: bool,
+    auto_cleanup: bool,
+}
+
+// one instantiation per element type (the serde bounds of ReplaceSelectSort cannot be named here:
+// serde is not a dependency of this crate)
+macro_rules! extsort_impl {
+    ($run:ident, $t:ty) => {
+        /// One `sort` over `input` in `dir`; returns the outcome, the report of the input iterator
+        /// and the number of runs the sorter says it generated.
+        fn $run(
+            dir: &Path,
+            k: &ExtSortKnobs,
+            sorter: &mut Option<ReplaceSelectSort<$t>>,
+            input: &[$t],
+            damage: Option<(usize, RunDamage)>,
+        ) -> (Outcome<Vec<$t>>, RunDamageReport, usize) {
+            let report = std::rc::Rc::new(std::cell::RefCell::new(RunDamageReport::default()));
+            let it = DamagingInput { inner: input.to_vec().into_iter(), dir: dir.to_path_buf(), damage, report: report.clone(), done: false };
+            if sorter.is_none() {
+                let config = ReplaceSelectSortConfig {
+                    memory_buffer_size: k.mem_items * std::mem::size_of::<$t>(),
+                    temp_dir: dir.to_path_buf(),
+                    use_secure_memory: k.secure,
+                    cleanup_temp_files: k.auto_cleanup,
+                    ..ReplaceSelectSortConfig::default()
+                };
+                *sorter = Some(ReplaceSelectSort::<$t>::new(config));
+            }
+            let s = sorter.as_mut().unwrap();
+            let before = s.stats().runs_generated;
+            let out = match catch_unwind(AssertUnwindSafe(|| s.sort(it).map_err(|e| e.to_string()))) {
+                Ok(Ok(v)) => Outcome::Ok(v),
+                Ok(Err(_)) => Outcome::Refused,
+                Err(_) => {
+                    let (loc, msg) = zsim_core::e1::LAST_PANIC.with(|l| l.borrow_mut().take()).unwrap_or_else(|| ("<unknown>".into(), "<no message>".into()));
+                    Outcome::Panic(loc, msg)
+                }
+            };
+            let runs = s.stats().runs_generated - before;
+            // whatever the outcome, the caller cleans up before the sorter is used again
+            let _ = s.cleanup();
+            let rep = std::mem::take(&mut *report.borrow_mut());
+            (out, rep, runs)
+        }
+    };
+}
+extsort_impl!(extsort_u32, u32);
+extsort_impl!(extsort_u64, u64);
+extsort_impl!(extsort_string, String);
+
+fn extsort_values(r: &mut Rng, o: [u64; 4], prev: &[u64]) -> (Vec<u64>, &'static str) {
+    let n = [0usize, 1, 2, 3, 5, 8, 13, 21, 40, 60, 4, 16][(o[0] % 12) as usize];
+    let span = [2u64, 8, 1000][(o[1] % 3) as usize];
+    let mut v: Vec<u64> = (0..n).map(|_| r.below(span)).collect();
+    let shape = match o[2] % 8 {
+        0 => {
+            v.sort_unstable();
+            "ascending"
+        }
+        1 => {
+            v.sort_unstable();
+            v.reverse();
+            "descending"
+        }
+        2 => {
+            // one long finished run followed by a short one
+            v.sort_unstable();
+            if let Some(l) = v.last_mut() {
+                *l = 0;
+            }
+            "ascending then one low value"
+        }
+        3 => {
+            for x in v.iter_mut() {
+                *x = span / 2;
+            }
+            "all equal"
+        }
+        4 if !prev.is_empty() => {
+            // the previous input again with one element changed
+            v = prev.to_vec();
+            let i = (o[3] as usize) % v.len();
+            v[i] = r.below(span);
+            "previous input, one element changed"
+        }
+        5 if !prev.is_empty() => {
+            v = prev.to_vec();
+            v.reverse();
+            "previous input reversed"
+        }
+        _ => "random",
+    };
+    (v, shape)
+}
+
+struct ExtSortSc;
+
+impl Scenario for ExtSortSc {
+    fn name(&self) -> String {
+        "ReplaceSelectSort/run-files".into()
+    }
+    fn budget(&self, tier: Tier) -> u64 {
+        match tier {
+            Tier::Quick => 1500,
+            Tier::Thorough => 60_000,
+        }
+    }
+    fn run(&self, cx: &mut Run) {
+        let scen = self.name();
+        let cfg = cx.src.chan("cfg");
+        let kind = cfg.below(3);
+        let knobs = ExtSortKnobs { mem_items: *cfg.pick(&[1usize, 2, 3, 4, 8]), secure: cfg.chance(1, 3), auto_cleanup: !cfg.chance(1, 3) };
+        let planned = 1 + cfg.below(3);
+        let which_sort = cfg.small(3) as usize;
+        let which_run = cfg.small(4) as usize;
+        let through_trait = cfg.chance(1, 6);
+        let dfam = cfg.weighted(&[4, 2, 1]);
+        let scratch = Scratch::new(cx, "extsort");
+        let dir = scratch.path("runs");
+        let _ = std::fs::create_dir_all(&dir);
+        let mut v = Verdicts::default();
+        cx.ev(format!("ReplaceSelectSort<{}> memory buffer of {} elements, secure_memory={}, cleanup_temp_files={}", ["u32", "u64", "String"][kind as usize], knobs.mem_items, knobs.secure, knobs.auto_cleanup));
+        // the element of value x (Strings of varying length, the empty string included)
+        let as_string = |x: u64| -> String {
+            if x == 0 {
+                String::new()
+            } else {
+                format!("{}{}", "k".repeat((x % 5) as usize), x)
+            }
+        };
+        let show_vals = |xs: &[u64]| -> String {
+            let head: Vec<String> = xs.iter().take(10).map(|x| x.to_string()).collect();
+            format!("{} values [{}{}]", xs.len(), head.join(","), if xs.len() > 10 { ",.." } else { "" })
+        };
+        // one sort of `vals` as the run's element type; Ok(result mapped back to u64 ranks is
+        // not possible for strings, so the comparison is done per type and reported as a bool)
+        let mut s32: Option<ReplaceSelectSort<u32>> = None;
+        let mut s64: Option<ReplaceSelectSort<u64>> = None;
+        let mut sst: Option<ReplaceSelectSort<String>> = None;
+        // returns (outcome: Ok(complete and sorted?) , report, runs)
+        let mut sort_once = |vals: &[u64], damage: Option<(usize, RunDamage)>| -> (Outcome<Result<(), String>>, RunDamageReport, usize) {
+            fn verdict<T: Ord + Clone + std::fmt::Debug>(input: &[T], o: Outcome<Vec<T>>) -> Outcome<Result<(), String>> {
+                match o {
+                    Outcome::Ok(got) => {
+                        let mut want = input.to_vec();
+                        want.sort();
+                        if got == want {
+                            Outcome::Ok(Ok(()))
+                        } else {
+                            let head: Vec<String> = got.iter().take(10).map(|x| format!("{:?}", x)).collect();
+                            let shown = format!("[{}{}]", head.join(","), if got.len() > 10 { ",.." } else { "" });
+                            // three different kinds of wrong, worded differently (known findings match on the wording)
+                            let sorted = got.windows(2).all(|w| w[0] <= w[1]);
+                            let mut rest = want.clone();
+                            let subset = got.iter().all(|x| match rest.iter().position(|y| y == x) {
+                                Some(i) => {
+                                    rest.remove(i);
+                                    true
+                                }
+                                None => false,
+                            });
+                            Outcome::Ok(Err(if !sorted {
+                                format!("the result is not sorted: {} elements {}", got.len(), shown)
+                            } else if subset && got.len() < want.len() {
+                                format!("only {} of {} elements came back, in order: {}", got.len(), want.len(), shown)
+                            } else {
+                                format!("{} elements came back for {} put in, some of them never put in or more often than put in: {}", got.len(), want.len(), shown)
+                            }))
+                        }
+                    }
+                    Outcome::Refused => Outcome::Refused,
+                    Outcome::Panic(a, b) => Outcome::Panic(a, b),
+                }
+            }
+            match kind {
+                0 => {
+                    let input: Vec<u32> = vals.iter().map(|x| *x as u32).collect();
+                    let (o, rep, runs) = extsort_u32(&dir, &knobs, &mut s32, &input, damage);
+                    (verdict(&input, o), rep, runs)
+                }
+                1 => {
+                    let input: Vec<u64> = vals.iter().map(|x| x << 33 | *x).collect();
+                    let (o, rep, runs) = extsort_u64(&dir, &knobs, &mut s64, &input, damage);
+                    (verdict(&input, o), rep, runs)
+                }
+                _ => {
+                    let input: Vec<String> = vals.iter().map(|x| as_string(*x)).collect();
+                    let (o, rep, runs) = extsort_string(&dir, &knobs, &mut sst, &input, damage);
+                    (verdict(&input, o), rep, runs)
+                }
+            }
+        };
+        let mut ops = cx.src.ops("ops", planned);
+        let mut inputs: Vec<(Vec<u64>, Vec<(usize, usize)>)> = vec![];
+        let mut prev: Vec<u64> = vec![];
+        let mut nops = 0u64;
+        let mut several = false;
+        while let Some(o) = ops.next() {
+            nops += 1;
+            let mut r = Rng::new(o[1] << 20 | o[3]);
+            let (vals, shape) = extsort_values(&mut r, o, &prev);
+            eprintln!("E4 case: {} clean sort {}", scen, nops);
+            let (out, rep, runs) = sort_once(&vals, None);
+            cx.probe("clean_reopens");
+            if runs >= 2 {
+                cx.probe("sorts_through_several_run_files");
+                several = true;
+            }
+            if inputs.len() >= 1 {
+                cx.probe("sorter_reused_after_cleanup");
+            }
+            match out {
+                Outcome::Ok(Ok(())) => {
+                    cx.ev(format!("sort {}: {} ({}) -> {} run files, complete and sorted", nops, show_vals(&vals), shape, runs));
+                    cx.cell("ReplaceSelectSort/clean/ok");
+                }
+                Outcome::Ok(Err(msg)) => {
+                    cx.ev(format!("sort {}: {} ({}) -> {} run files, WRONG: {}", nops, show_vals(&vals), shape, runs, msg));
+                    v.add(PRIO_CLEAN, "clean_reopen_mismatch", "ReplaceSelectSort.sort/clean", format!("sort number {} of this sorter, input {} ({}), memory buffer of {} elements, {} undamaged run files: {}", nops, show_vals(&vals), shape, knobs.mem_items, runs, msg));
+                    break;
+                }
+                Outcome::Refused => {
+                    cx.ev(format!("sort {}: {} ({}) -> Err", nops, show_vals(&vals), shape));
+                    v.add(PRIO_CLEAN, "clean_reopen_refused", "ReplaceSelectSort.sort/clean", format!("sort number {} of this sorter, input {} ({}), memory buffer of {} elements: undamaged run files, but sort returned an error", nops, show_vals(&vals), shape, knobs.mem_items));
+                    break;
+                }
+                Outcome::Panic(loc, msg) => {
+                    cx.ev(format!("sort {}: {} ({}) -> PANIC at {}", nops, show_vals(&vals), shape, loc));
+                    v.add(PRIO_PANIC, "panic", &loc, format!("ReplaceSelectSort clean sort of {}: {}", show_vals(&vals), msg));
+                    break;
+                }
+            }
+            prev = vals.clone();
+            inputs.push((vals, rep.finished));
+        }
+        cx.steps = nops;
+        // the same through the Vec<T>::external_sort_with_config front end (its own sorter)
+        if through_trait && !prev.is_empty() && v.list.is_empty() {
+            let mut data: Vec<u64> = prev.clone();
+            let config = ReplaceSelectSortConfig { memory_buffer_size: knobs.mem_items * 8, temp_dir: dir.clone(), use_secure_memory: knobs.secure, ..ReplaceSelectSortConfig::default() };
+            let o = recover(&scen, "Vec::external_sort_with_config", || data.external_sort_with_config(config).map_err(|e| e.to_string()));
+            let mut want = prev.clone();
+            want.sort_unstable();
+            match o {
+                Outcome::Ok(()) if data == want => cx.ev("Vec<u64>::external_sort_with_config -> complete and sorted"),
+                Outcome::Ok(()) => v.add(PRIO_CLEAN, "clean_reopen_mismatch", "Vec.external_sort_with_config/clean", format!("input {}: {} elements came back", show_vals(&prev), data.len())),
+                Outcome::Refused => v.add(PRIO_CLEAN, "clean_reopen_refused", "Vec.external_sort_with_config/clean", format!("input {}: error with undamaged run files", show_vals(&prev))),
+                Outcome::Panic(loc, msg) => v.add(PRIO_PANIC, "panic", &loc, format!("Vec::external_sort_with_config of {}: {}", show_vals(&prev), msg)),
+            }
+        }
+        // ---- one finished run file of one sort, damaged in every way, the sort repeated each time
+        let cands: Vec<usize> = (0..inputs.len()).filter(|i| !inputs[*i].1.is_empty()).collect();
+        let mut tl = Tally::default();
+        if !cands.is_empty() && v.list.is_empty() {
+            let si = cands[cands.len() - 1 - which_sort.min(cands.len() - 1)];
+            let (vals, finished) = inputs[si].clone();
+            let (run, len) = finished[which_run.min(finished.len() - 1)];
+            cx.ev(format!("damage to run file {} ({} bytes, finished and synced) of sort {} between its finish and the merge", run, len, si + 1));
+            // one family per run, so that a finding in one does not hide another
+            let mut damages: Vec<RunDamage> = vec![];
+            match dfam {
+                0 => damages.extend(trunc_lengths(len).into_iter().map(RunDamage::Cut)),
+                1 => {
+                    // blocks reach the disk whole: zeros from a 512-byte boundary on (0 included)
+                    let mut k = 0;
+                    while k < len {
+                        damages.push(RunDamage::ZeroFrom(k));
+                        k += 512;
+                    }
+                }
+                _ => damages.push(RunDamage::Remove),
+            }
+            let mut shown = 0;
+            for d in damages {
+                let desc = match &d {
+                    RunDamage::Cut(l) => format!("run file {} cut at {} of {}", run, l, len),
+                    RunDamage::ZeroFrom(k) => format!("run file {}: bytes {}..{} zero", run, k, len),
+                    RunDamage::Remove => format!("run file {} removed", run),
+                };
+                let fam = match &d {
+                    RunDamage::Cut(_) => "run_cut",
+                    RunDamage::ZeroFrom(_) => "run_zero_tail",
+                    RunDamage::Remove => "run_removed",
+                };
+                eprintln!("E4 case: {} {}", scen, desc);
+                let (out, rep, _) = sort_once(&vals, Some((run, d.clone())));
+                if !rep.applied {
+                    cx.probe("run_damage_not_applied");
+                    continue;
+                }
+                cx.fault(fam);
+                tl.images += 1;
+                match out {
+                    Outcome::Refused => {
+                        tl.refused += 1;
+                        cx.cell(format!("ReplaceSelectSort/{}/refused", fam));
+                    }
+                    Outcome::Ok(Ok(())) => {
+                        *tl.ok_at.entry(si + 1).or_insert(0) += 1;
+                        cx.cell(format!("ReplaceSelectSort/{}/complete", fam));
+                    }
+                    Outcome::Ok(Err(msg)) => {
+                        tl.bad += 1;
+                        cx.cell(format!("ReplaceSelectSort/{}/wrong_result", fam));
+                        if shown < 3 {
+                            shown += 1;
+                            cx.ev(format!("  {}: sort returned Ok, {}", desc, msg));
+                        }
+                        v.add(PRIO_IMAGE, "damaged_run_file_accepted", &format!("ReplaceSelectSort.sort/{}", fam), format!("input {}, memory buffer of {} elements; [{}] before the merge: sort returned Ok, but {}", show_vals(&vals), knobs.mem_items, desc, msg));
+                    }
+                    Outcome::Panic(loc, msg) => {
+                        tl.panics += 1;
+                        cx.cell(format!("ReplaceSelectSort/{}/panic", fam));
+                        v.add(PRIO_PANIC, "panic", &loc, format!("ReplaceSelectSort [{}]: {}", desc, msg));
+                    }
+                }
+            }
+            let oks: u64 = tl.ok_at.values().sum();
+            cx.ev(format!("damaged run file: {} sorts -> refused={} complete={} wrong_result={} panics={}", tl.images, tl.refused, oks, tl.bad, tl.panics));
+            cx.probe_n("images_recovered", tl.images);
+            cx.probe_n("images_refused", tl.refused);
+        }
+        cx.nontrivial = tl.images > 0 || several;
         v.report(cx);
     }
 }
@@ -2060,11 +3231,12 @@ fn main() {
         ("memory::MmapVec (+ memory::mmap::MemoryMappedAllocator)", "real"),
         ("blob_store::PlainBlobStore", "real"),
         ("blob_store::ZReorderMapBuilder / ZReorderMap", "real"),
-        ("blob_store::ZipOffsetBlobStore save_to_file/load_from_file", "real (vacuous: ZipOffsetBlobStoreBuilder::finish returns an empty store, so the saved content is always empty)"),
+        ("blob_store::ZipOffsetBlobStore save_to_file/load_from_file, save_to_writer/load_from_reader", "real (the saved file carries no offset index - known finding -, so every loaded store presents 0 records)"),
         ("compression::dict_zip::SuffixArrayDictionary save_to_file/load_from_file", "real"),
         ("compression::dict_zip::DictZipBlobStore from_dictionary_file/save_dictionary/load_dictionary", "real"),
         ("entropy::HuffmanTree / ContextualHuffmanEncoder / Dictionary serialize+deserialize", "real; the file write is done by the harness"),
         ("io::MemoryMappedOutput / MemoryMappedInput", "real"),
+        ("algorithms::external_sort::ReplaceSelectSort (run files written by generate_runs, reopened by merge_runs)", "real; run files are damaged from the caller's input iterator between finish_run and the merge"),
         ("file system", "real (scratch directory under temp_dir, tmpfs when available); crash images are constructed by the harness"),
         ("libc mmap for anonymous private mappings during MmapVec recoveries", "real syscall behind a harness wrapper that adds a guard page and unmaps what MmapVec leaks"),
     ];
@@ -2086,6 +3258,7 @@ fn main() {
         spec.scenarios.push(Box::new(SerialSc { kind }));
     }
     spec.scenarios.push(Box::new(MmapIoSc));
+    spec.scenarios.push(Box::new(ExtSortSc));
     if !fence::selftest() {
         // without it MmapVec recoveries leak 64 KiB each until RLIMIT_AS turns every open into Err
         eprintln!("zsim: harness error: C19: the mmap interposition (fence) is not active in this executable");
